@@ -1,12 +1,18 @@
 #!/usr/bin/env python3
-"""setup: build the harness from files on disk (offline) and let TLC generate
-the oracle tables once."""
+"""setup: build the harness (all feature sets used by the checks) and the C API
+shim from files on disk (offline) and let TLC generate the oracle tables once."""
 import os
 import sys
 
 sys.path.insert(0, os.path.dirname(os.path.abspath(__file__)))
 import vlib  # noqa: E402
 
-vlib.build_harness()
+for feats in ["idx,cache,mt", "idx,cache", "idx,mt", "idx", "ptr,cache,mt", "ptr,cache", "ptr,mt", "ptr"]:
+    vlib.build_harness(feats)
+try:
+    import chk_c19
+    vlib.build_harness(features="idx,cache,mt", package_dir=chk_c19.SHIM, bin_name="oxc")
+except Exception as e:  # the check itself reports build problems
+    print("note: shim not pre-built:", e)
 vlib.ensure_tables()
 print("setup ok")
